@@ -28,6 +28,13 @@
 //!   addseq A|B api|ffi <dna>        add_sequence(dna, false) / hll_add_sequence; the true set grows by the
 //!                                   distinct canonical 21-mer hashes (counted with a scaled=1 KmerMinHash) -> nz=..
 //!   mrgffi A|B                      hll_merge (C API)                                                -> nz=..
+//!   addh A|B <route> <h1,h2,..>     explicit hashes - SMALL and STRUCTURED ones (0, 1, 2^k-1, 2^k, 2^k+1, values below
+//!                                   2^(p-1) / 2^p, all-ones), which no random stream ever produces - through
+//!                                   add_hash (api), add_many (many), hll_add_hash (ffi), a scaled=1 KmerMinHash +
+//!                                   update (mh) or a num MinHash that keeps everything (mhn); the true set grows
+//!                                   by the distinct ones (the generator keeps the low p bits of the hashes of one
+//!                                   list pairwise distinct: they are distinct elements in distinct registers, as
+//!                                   for a uniform hash function; their ranks are whatever they are)          -> nz=..
 //!
 //! Every estimate is asked ON THE SKETCH OBJECT ITSELF (never on a copy), so that an answer that does
 //! not follow the registers - something remembered from before the last mutation - is observed:
@@ -84,6 +91,166 @@ fn pair(o: &mut Cases, p: u32, sa: u64, na: u64, sb: u64, nb: u64, kind: &str) {
         v.push(op.into());
     }
     o.push((kind.into(), v));
+}
+
+/// one small / structured hash for a sketch of precision p
+fn structured_hash(r: &mut Rng, p: u32) -> u64 {
+    let k = r.range(0, 63) as u32;
+    match r.below(12) {
+        0 => 0,
+        1 => 1,
+        2 => u64::MAX,
+        3 => (1u64 << k).wrapping_sub(1),
+        4 => 1u64 << k,
+        5 => (1u64 << k) + 1,
+        6 => r.below(1 << (p - 1)),
+        7 => (1 << (p - 1)) + r.below(1 << (p - 1)),
+        8 => r.below(1 << (p + 3)),
+        9 => r.range(2, 9),
+        10 => u64::MAX - r.below(1 << p),
+        _ => r.bits(64),
+    }
+}
+
+/// up to `want` such hashes whose low p bits are pairwise distinct (and differ from those in `avoid`)
+fn structured_set(r: &mut Rng, p: u32, want: u64, first: &[u64], avoid: &[u64]) -> Vec<u64> {
+    let mask = (1u64 << p) - 1;
+    let mut v: Vec<u64> = vec![];
+    let mut cands: Vec<u64> = first.to_vec();
+    for _ in 0..(4 * want) {
+        cands.push(structured_hash(r, p));
+    }
+    for h in cands {
+        if (v.len() as u64) < want.max(first.len() as u64) && !v.iter().chain(avoid.iter()).any(|x| x & mask == h & mask) {
+            v.push(h);
+        }
+    }
+    v
+}
+
+const HROUTES: [&str; 5] = ["api", "many", "ffi", "mh", "mhn"];
+
+fn structured_cases(o: &mut Cases, r: &mut Rng, thorough: bool) {
+    // (1) every k at every p: 2^k - 1, 2^k, 2^k + 1 (low p bits: all ones / 0 / 1 for k >= p, the values
+    // themselves below), into an empty sketch or next to a random stream
+    for p in 4..=18u32 {
+        let m = 1u64 << p;
+        for k in 0..=63u32 {
+            if !thorough && (k + p) % 2 == 1 && k > p + 1 && k < 62 {
+                continue; // quick: every k up to p + 1 (the saturating ones), every second one above
+            }
+            let trio: Vec<u64> = if k == 0 { vec![0, 1, 2] } else { vec![(1u64 << k) - 1, 1u64 << k, (1u64 << k) + 1] };
+            let n0 = match (k + p) % 3 {
+                0 => 0,
+                1 => r.range(1, m / 2),
+                _ => r.range(m, 4 * m),
+            }
+            .min(if thorough { 20_000 } else { 3_000 });
+            let s = r.bits(40);
+            let mut v = vec![format!("A {} {} {}", p, s, n0), (if r.chance(1, 2) { "cardint A" } else { "cardffi A" }).into()];
+            v.push(format!("addh A {} {}", HROUTES[((k + p) % 5) as usize], show_nats(trio.iter().copied())));
+            for op in ["cardint A", "cardffi A", "bound A", "fresh A"] {
+                v.push(op.into());
+            }
+            if k % 4 == 0 {
+                v.push("hist A".into());
+                v.push("card A".into());
+            }
+            if (k + p) % 4 == 0 {
+                // a second sketch that shares the middle one
+                v.push(format!("B {} {} {}", p, s + n0 / 2, n0));
+                v.push(format!("addh B {} {}", HROUTES[((k + 2) % 5) as usize], trio[1]));
+                for op in ["api", "apiffi", "consist", "jhist", "jbound", "freshj", "bound B"] {
+                    v.push(op.into());
+                }
+            }
+            o.push(("pow2".into(), v));
+        }
+    }
+    // (2) random structured sets: alone (the whole true set is small hashes) and among random streams,
+    // every entry point, both operands of the overlap queries, merges, reloads
+    let many = if thorough { 6000 } else { 700 };
+    for c in 0..many {
+        let p = if c % 3 == 0 { r.range(4, 18) as u32 } else { r.range(4, 12) as u32 };
+        let m = 1u64 << p;
+        let cap = if thorough { 40_000 } else { 6_000 };
+        // every register such a hash saturates is 1/m of the sketch's evidence: at most m/16 of them (1 at p = 4,
+        // 2 at p = 5, 4 at p = 6, then 6) per sketch, so that they stay a perturbation the windows were sized for
+        let wmax = (m / 16).clamp(1, 6);
+        let want = r.range(1, wmax);
+        let alone = c % 4 == 0;
+        let n0 = if alone { 0 } else { r.range(m / 4, 4 * m).min(cap) };
+        let s = r.bits(40);
+        let first: &[u64] = match c % 7 {
+            0 => &[0],
+            1 => &[1],
+            2 => &[5],
+            3 => &[u64::MAX],
+            _ => &[],
+        };
+        let sa = structured_set(r, p, want, first, &[]);
+        let mut v = vec![format!("A {} {} {}", p, s, n0)];
+        v.push((if r.chance(1, 2) { "cardint A" } else { "cardffi A" }).into());
+        // in one call or one by one, asking in between
+        if r.chance(1, 2) || sa.len() == 1 {
+            v.push(format!("addh A {} {}", r.pick(&HROUTES), show_nats(sa.iter().copied())));
+        } else {
+            for h in &sa {
+                v.push(format!("addh A {} {}", r.pick(&HROUTES), h));
+                v.push((if r.chance(1, 2) { "cardint A" } else { "bound A" }).into());
+            }
+        }
+        for op in ["cardint A", "cardffi A", "bound A", "fresh A"] {
+            v.push(op.into());
+        }
+        if r.chance(1, 3) {
+            v.push("card A".into());
+            v.push("hist A".into());
+        }
+        // the other operand: shares part of the structured set, has some of its own
+        let nb = if alone && r.chance(1, 2) { 0 } else { r.range(m / 4, 2 * m).min(cap) };
+        let sb_start = if r.chance(1, 2) { s + n0 / 2 } else { s + n0 + r.below(100) };
+        v.push(format!("B {} {} {}", p, sb_start, nb));
+        let shared: Vec<u64> = sa.iter().copied().filter(|_| r.chance(1, 2)).collect();
+        let nown = r.range(0, 2.min(wmax));
+        let own = structured_set(r, p, nown, &[], &sa);
+        let mut sb = shared.clone();
+        sb.extend(own);
+        sb.truncate(wmax as usize);
+        if !sb.is_empty() {
+            v.push(format!("addh B {} {}", r.pick(&HROUTES), show_nats(sb.iter().copied())));
+        }
+        for op in ["bound B", "joint", "api", "apiffi", "consist", "jhist", "jbound", "freshj"] {
+            v.push(op.into());
+        }
+        // and on: the structured hashes again (nothing new), a merge, a reload, more of the stream
+        match r.below(4) {
+            0 => {
+                v.push(format!("addh A {} {}", r.pick(&HROUTES), show_nats(sa.iter().rev().copied())));
+                v.push("bound A".into());
+            }
+            1 => {
+                v.push((if r.chance(1, 2) { "mrg A" } else { "mrgffi A" }).into());
+                v.push("bound A".into());
+                v.push("fresh A".into());
+                v.push("jbound".into());
+            }
+            2 => {
+                v.push(format!("reload A {}", *r.pick(&["file", "gz", "buf"])));
+                v.push("cardint A".into());
+                v.push("bound A".into());
+                v.push("api".into());
+            }
+            _ => {
+                let n = r.range(1, m).min(cap);
+                v.push(format!("add A {} {}", s + n0 + 200, n));
+                v.push("bound A".into());
+                v.push("fresh A".into());
+                v.push("jbound".into());
+            }
+        }
+        o.push(((if alone { "small-alone" } else { "small-among" }).into(), v));
+    }
 }
 
 fn gen(a: &Args) {
@@ -320,6 +487,9 @@ fn gen(a: &Args) {
             o.push(("before-after".into(), v));
         }
     }
+    // ---- small and structured hashes: 0, 1, 2^k - 1, 2^k, 2^k + 1 for every k, values below 2^(p-1) and
+    // 2^p (upper q bits all zero: the rank saturates at q + 1), all-ones - alone and alongside random streams
+    structured_cases(&mut o, &mut r, thorough);
     for i in (1..o.len()).rev() {
         let j = r.below(i as u64 + 1) as usize;
         o.swap(i, j);
@@ -517,7 +687,7 @@ fn step(st: &mut St, ws: &[&str]) -> String {
             }
             format!("nz={}", nz)
         }
-        "add" | "upd" | "reload" | "addmany" | "addffi" | "addseq" => {
+        "add" | "upd" | "reload" | "addmany" | "addffi" | "addseq" | "addh" => {
             let sk = match if ws[1] == "A" { st.a.as_mut() } else { st.b.as_mut() } {
                 Some(s) => s,
                 None => return "none".into(),
@@ -543,6 +713,37 @@ fn step(st: &mut St, ws: &[&str]) -> String {
                         unsafe { hll_add_hash(ptr, splitmix64(start + i)) };
                     }
                     sk.ranges.push((start, n));
+                }
+                "addh" => {
+                    let hs = parse_nats(ws[3]);
+                    match ws[2] {
+                        "api" => {
+                            for h in &hs {
+                                sk.h.add_hash(*h);
+                            }
+                        }
+                        "many" => sk.h.add_many(&hs).unwrap(),
+                        "ffi" => {
+                            let ptr = &mut sk.h as *mut HyperLogLog as *mut SourmashHyperLogLog;
+                            for h in &hs {
+                                unsafe { hll_add_hash(ptr, *h) };
+                            }
+                        }
+                        _ => {
+                            let num = if ws[2] == "mhn" { hs.len() as u32 + 2 } else { 0 };
+                            let mut mh = KmerMinHash::new(if num == 0 { 1 } else { 0 }, 21, HashFunctions::Murmur64Dna, 42, false, num);
+                            let mut sorted = hs.clone();
+                            sorted.sort_unstable();
+                            sorted.dedup();
+                            for h in &hs {
+                                mh.add_hash(*h);
+                            }
+                            // the MinHash is only the vehicle: it must hold exactly these hashes
+                            assert_eq!(mh.mins(), sorted);
+                            mh.update(&mut sk.h).unwrap();
+                        }
+                    }
+                    sk.extra = merge_sorted(&sk.extra, &hs);
                 }
                 "addseq" => {
                     let seq = ws[3].as_bytes();
